@@ -201,12 +201,25 @@ def run(ck):
     hides = [m for m in rrec["methods"] if m["name"] == RS + "::flush"]
     if hides:
         hf = F.fns.get(hides[0]["fn"])
-        okh = False
-        if hf is not None:
-            gh = Graph(hf)
-            cb = [n for n in hf.calls(FS + "::flush") if n.get("qualified")]
-            okh = bool(cb) and gh.must_pass(set(gh.sites_of_nodes(cb)))
-        ck.ob("C11-O3", "rotatingfilesink (RotatingFileSink::flush)", okh, "RotatingFileSink::flush delegates to FileSink::flush" if okh else "RotatingFileSink overrides flush() without flushing the file", key="RotatingFileSink::flush|hides")
+        def flushes_file(fn_, depth=0):
+            """every path through fn_ flushes the sink's QFile: FileSink::flush(), file()->flush(), or a member of the sink / its
+            private object that does"""
+            if fn_ is None or fn_.body is None or depth > 3:
+                return False
+            gh = Graph(fn_)
+            cb = [n for n in fn_.calls(FS + "::flush") if n.get("qualified")]
+            for n in fn_.calls(("QFileDevice::flush", "QFile::flush")):
+                o = unwrap_ptr(deref_local(fn_, unwrap_ptr(n.get("obj")))) if isinstance(n.get("obj"), dict) else None
+                if is_call(o, FS + "::file"):
+                    cb.append(n)
+            for n in fn_.calls():
+                h = F.fns.get(n.get("fn"))
+                if h is not None and h.id != fn_.id and (h.cls or "").startswith(RS) and not is_call(n, FS + "::file") and flushes_file(h, depth + 1):
+                    cb.append(n)
+            return bool(cb) and gh.must_pass(set(gh.sites_of_nodes(cb)))
+        okh = flushes_file(hf)
+        ck.touch(hf)
+        ck.ob("C11-O3", "rotatingfilesink (RotatingFileSink::flush)", okh, "RotatingFileSink::flush flushes the file on every path (FileSink::flush() / file()->flush(), directly or through its private object)" if okh else "RotatingFileSink overrides flush() without flushing the file", key="RotatingFileSink::flush|hides")
     else:
         ck.ob("C11-O3", "rotatingfilesink.h (RotatingFileSink)", True, "RotatingFileSink inherits FileSink::flush unhidden")
     file_fn = F.fn(FS + "::file")
